@@ -70,3 +70,49 @@ Proof. intros H. unfold t_expand. now rewrite get_tab. Qed.
 
 Example bshape_ex : broadcast_shape [3; 1; 2] [4; 1] = Some [3; 4; 2] /\ broadcast_shape [2; 3] [4; 3] = None /\ broadcast_shape [0; 1] [1; 5] = Some [0; 5].
 Proof. repeat split; reflexivity. Qed.
+
+(* ---- three operands: the grouping does not matter (where) ---------------------------------------------- *)
+Definition bshape_opt (oa ob : option (list nat)) : option (list nat) :=
+  match oa, ob with Some a, Some b => bshape a b | _, _ => None end.
+
+Lemma bshape_nil_r l : bshape l [] = Some l.
+Proof. destruct l; reflexivity. Qed.
+
+Definition bdim (x y : nat) : option nat :=
+  if Nat.eqb x y then Some x else if Nat.eqb x 1 then Some y else if Nat.eqb y 1 then Some x else None.
+Definition bdim_opt (ox oy : option nat) : option nat := match ox, oy with Some x, Some y => bdim x y | _, _ => None end.
+
+Lemma bdim_assoc x y z : bdim_opt (bdim x y) (Some z) = bdim_opt (Some x) (bdim y z).
+Proof.
+  unfold bdim_opt, bdim.
+  repeat (match goal with
+          | |- context [Nat.eqb ?a ?b] => destruct (Nat.eqb_spec a b); subst
+          end; cbn [bdim_opt]; try congruence; try lia);
+  try reflexivity; try congruence; try lia.
+Qed.
+
+Lemma bshape_cons x a y b : bshape (x :: a) (y :: b) =
+  match bshape a b, bdim x y with Some r, Some d => Some (d :: r) | _, _ => None end.
+Proof.
+  simpl. unfold bdim. destruct (bshape a b); [|reflexivity].
+  destruct (Nat.eqb x y); [reflexivity|]. destruct (Nat.eqb x 1); [reflexivity|]. destruct (Nat.eqb y 1); reflexivity.
+Qed.
+
+(* three-way broadcasting does not depend on the grouping: where(c, x, y) broadcasts as NumPy does *)
+Theorem bshape_assoc a : forall b c, bshape_opt (bshape a b) (Some c) = bshape_opt (Some a) (bshape b c).
+Proof.
+  induction a as [|x a IH]; intros b c.
+  - simpl. destruct (bshape b c); reflexivity.
+  - destruct b as [|y b].
+    + simpl. destruct c; reflexivity.
+    + destruct c as [|z c].
+      * cbn [bshape_opt]. rewrite bshape_nil_r. cbn [bshape_opt]. destruct (bshape (x :: a) (y :: b)) as [l|]; [apply bshape_nil_r|reflexivity].
+      * rewrite (bshape_cons x a y b), (bshape_cons y b z c).
+        specialize (IH b c). pose proof (bdim_assoc x y z) as Hd.
+        destruct (bshape a b) as [r1|] eqn:E1; destruct (bdim x y) as [d1|] eqn:D1;
+          destruct (bshape b c) as [r2|] eqn:E2; destruct (bdim y z) as [d2|] eqn:D2;
+          cbn [bshape_opt bdim_opt] in *; rewrite ?bshape_cons;
+          try rewrite IH; try rewrite <- IH; try rewrite Hd; try rewrite <- Hd; try reflexivity;
+          try (destruct (bshape r1 c); reflexivity); try (destruct (bshape a r2); reflexivity);
+          try (destruct (bshape a r2); [destruct (bdim x d2)|]; congruence).
+Qed.
